@@ -75,7 +75,7 @@ func init() {
 			"not decided: 'within bounded time'; storage callbacks that ignore the context; that the context's error rather than a value is returned on the last batch; full deadlock freedom of the worker protocol (R-CHAN of the design was withdrawn, see DESIGN.md)",
 		}})
 	property(&Property{ID: "C15", Level: "other",
-		Rules: []string{"R-ITERERR", "R-SETERR", "R-ERRSHADOW", "R-ERRPROP"},
+		Rules: []string{"R-ITERERR", "R-SETERR", "R-ERRPROP"},
 		Explanation: "Structural necessary conditions of error surfacing: a failing iterator/series set is distinguished from an exhausted one at every advance site; an error assigned inside a once/closure is assigned to the variable the enclosing function returns (no shadowing declaration); every error returned by a child operator or helper in execution/... is tested and returned before the other results are used.",
 		NotDecided: []string{
 			"not decided: wrapping fidelity of the final error; the once-guarded loaders do not latch their error (no plan was found in which that yields a successful result)",
